@@ -41,7 +41,22 @@ def build(case_prog, ins, v, secret, nreg, rnd):
     return r
 
 
+FIXED = []
+
+
+def fixed_cases():
+    """fields wider than the bitlength, secret values that fit the field's width but not its modulus (rejected by unpack), and the
+    same in range; the run must leave the configuration as it found it"""
+    out = []
+    for n, m, vals in ((6, 100, [120, 99, 100, 127, 5]), (8, 100000, [120000, 99999, 131071, 70000]), (6, 65, [64, 65, 100])):
+        for v in vals:
+            prog = [["input", 0, "priv", 0], ["pack", 1, ["intmod", m], 0], ["unpack", 2, ["intmod", m], 1]]
+            out.append(dict(cfg=dict(p=BN, n=n, res=1, ign=0), prog=prog, ins=[v], kind="pack", schema=["intmod", m], value=v, secret=True))
+    return out
+
+
 def casegen(rnd):
+    if FIXED: return FIXED.pop()
     p = rnd.choice([BN, progs.BLS, 65537])
     cfg = dict(p=p, n=rnd.choice([6, 8, 16]), res=1, ign=0)
     k = rnd.random()
@@ -187,7 +202,8 @@ def post_factory(tier, seed):
 
 
 def run(tier, seed):
-    return tracecheck.run(PID, tier, seed, {}, oracle, n_quick=300, n_thorough=5000, casegen=casegen, post=post_factory(tier, seed),
+    FIXED[:] = fixed_cases()
+    return tracecheck.run(PID, tier, seed, {}, oracle, n_quick=300 + len(FIXED), n_thorough=5000, casegen=casegen, post=post_factory(tier, seed),
                           mask=1 | 2 | 4 | 8, shrink_budget=6)
 
 
